@@ -325,8 +325,34 @@ func (c *Ctx) bstAgreement(info *types.Info, ins, srch *ast.FuncDecl) {
 	os.isA = func(e ast.Expr) bool { id, ok := e.(*ast.Ident); return ok && id.Name == sp }
 	os.isB = func(e ast.Expr) bool { _, ok := isValueOf(e); return ok }
 	var stopIf, routeIf *ast.IfStmt
+	var contCond ast.Expr // a conjunct of the loop condition other than a nil test: the search goes on while it holds
 	ast.Inspect(srch.Body, func(n ast.Node) bool {
 		if f, ok := n.(*ast.ForStmt); ok {
+			var conj func(e ast.Expr)
+			conj = func(e ast.Expr) {
+				switch x := e.(type) {
+				case *ast.ParenExpr:
+					conj(x.X)
+				case *ast.BinaryExpr:
+					if x.Op == token.LAND {
+						conj(x.X)
+						conj(x.Y)
+						return
+					}
+					if id, isID := x.Y.(*ast.Ident); isID && id.Name == "nil" {
+						return
+					}
+					if id, isID := x.X.(*ast.Ident); isID && id.Name == "nil" {
+						return
+					}
+					if contCond == nil {
+						contCond = x
+					}
+				}
+			}
+			if f.Cond != nil {
+				conj(f.Cond)
+			}
 			for _, s := range f.Body.List {
 				is, ok := s.(*ast.IfStmt)
 				if !ok {
@@ -341,7 +367,7 @@ func (c *Ctx) bstAgreement(info *types.Info, ins, srch *ast.FuncDecl) {
 		}
 		return true
 	})
-	if insIf == nil || stopIf == nil || routeIf == nil {
+	if insIf == nil || (stopIf == nil && contCond == nil) || routeIf == nil {
 		c.violate("bst-agreement", "helper.(*Bst).Insert/searchNode", "shape", ins.Pos(),
 			"Insert or searchNode no longer has the if/else routing shape the rule understands (undecided, fails closed)")
 		return
@@ -352,10 +378,22 @@ func (c *Ctx) bstAgreement(info *types.Info, ins, srch *ast.FuncDecl) {
 	for _, ord := range []int{-1, 0, 1} {
 		ci, ok1 := oi.eval(insIf.Cond, ord)
 		cs, ok2 := os.eval(routeIf.Cond, ord)
-		st, ok3 := os.eval(stopIf.Cond, ord)
+		var st, ok3 bool
+		stopText := ""
+		stopPos := routeIf.Pos()
+		if stopIf != nil {
+			st, ok3 = os.eval(stopIf.Cond, ord)
+			stopText = exprString(stopIf.Cond)
+			stopPos = stopIf.Pos()
+		} else {
+			goOn, okc := os.eval(contCond, ord)
+			st, ok3 = !goOn, okc
+			stopText = "!(" + exprString(contCond) + ")"
+			stopPos = contCond.Pos()
+		}
 		if !ok1 || !ok2 || !ok3 {
 			c.violate("bst-agreement", "helper.(*Bst).Insert/searchNode", "undecided "+names[ord], insIf.Pos(),
-				"a routing condition is outside the comparison vocabulary (undecided, fails closed): "+exprString(insIf.Cond)+" / "+exprString(routeIf.Cond)+" / "+exprString(stopIf.Cond))
+				"a routing condition is outside the comparison vocabulary (undecided, fails closed): "+exprString(insIf.Cond)+" / "+exprString(routeIf.Cond)+" / "+stopText)
 			continue
 		}
 		insSide := insThen
@@ -370,7 +408,7 @@ func (c *Ctx) bstAgreement(info *types.Info, ins, srch *ast.FuncDecl) {
 		case 0:
 			run.Oblige(st)
 			if !st {
-				c.violate("bst-agreement", "helper.(*Bst).searchNode", "equal not found", stopIf.Pos(), "searchNode does not stop on a node whose value equals the searched value")
+				c.violate("bst-agreement", "helper.(*Bst).searchNode", "equal not found", stopPos, "searchNode does not stop on a node whose value equals the searched value")
 			}
 		default:
 			good := !st && insSide == srchSide && (insSide == "left") == (ord < 0)
